@@ -348,6 +348,7 @@ func (l c15) Exec(env *core.Env) *core.Result {
 				}
 				dirBefore := snapshot(root)
 				err := cache.Set(ctx, v.url, v.bundle)
+				rt.Yield("returned") // a process that crashed meanwhile (a goroutine of its own met the crash) reports nothing
 				st := c15Step{Op: "set", URL: short(v.url), Val: v.id, At: at}
 				if err == nil {
 					// where this URL's entry lives is learnt from what the store changed (not from the
@@ -521,6 +522,7 @@ func (l c15) Exec(env *core.Env) *core.Result {
 					url = c15URLs[op.Int(0)]
 				}
 				b, err := cache.Get(ctx, url)
+				rt.Yield("returned") // a process that crashed meanwhile (a goroutine of its own met the crash) reports nothing
 				now = time.Now()
 				st := c15Step{Op: "get", URL: short(url), At: at}
 				faulted := t.FaultsSeen != before
